@@ -36,11 +36,15 @@ var (
 	progSender   = ethcmn.HexToAddress("0x5e5e5e5e5e5e5e5e5e5e5e5e5e5e5e5e5e5e5e5e")
 	progOther    = ethcmn.HexToAddress("0xc0") // pre-deployed callee: increments slot 0, logs, stops
 	progReverter = ethcmn.HexToAddress("0xc1") // pre-deployed callee: writes slot 0, reverts
+	progCreator  = ethcmn.HexToAddress("0xc2") // pre-deployed callee: CREATE2s a child, pays 0xc0, reverts
 	progFresh    = ethcmn.HexToAddress("0xf1") // never seeded: SELFDESTRUCT beneficiary, EXTCODEHASH/BALANCE target
 	progCoinbase = ethcmn.HexToAddress("0xcb")
 
 	otherCode    = hexb("6001 6000 54 01 6000 55  60bb 6000 6000 a1  00")
 	reverterCode = hexb("6001 6000 55  6000 6000 fd")
+
+	// creatorCode is built in init() (it embeds childInit)
+	creatorCode []byte
 
 	// init code of the children made by CREATE/CREATE2: SSTORE(0,1); RETURN(mem[0:1]) => runtime 0x00 (STOP)
 	childInit = hexb("6001 6000 55 6001 6000 f3")
@@ -55,6 +59,7 @@ var (
 			"if CALLDATASIZE==0 { mem[32]=CALL(gas, ADDRESS, value 1, 1 byte of calldata) } (re-entrancy depth 1)"},
 		{"CALLOTHER", hexb("6000 6000 6000 6000 6001 60c0 5a f1 6020 52"), "mem[32]=CALL(gas, 0xc0, value 1)"},
 		{"CALLREVERTER", hexb("6000 6000 6000 6000 6001 60c1 5a f1 6020 52"), "mem[32]=CALL(gas, 0xc1, value 1) (callee writes then reverts)"},
+		{"CALLCREATOR", hexb("6000 6000 6000 6000 6001 60c2 5a f1 6020 52"), "mem[32]=CALL(gas, 0xc2, value 1) (callee CREATE2s a child with value 0, pays 1 to 0xc0, then reverts)"},
 		{"CREATE", append(append(hexb("69"), childInit...), hexb("6040 52  600a 6056 6001 f0  6020 52")...), "mem[32]=CREATE(value 1, child init)"},
 		{"CREATE2", append(append(hexb("69"), childInit...), hexb("6040 52  6000 600a 6056 6000 f5  6020 52")...), "mem[32]=CREATE2(value 0, child init, salt 0) (second time: address collision)"},
 		{"SELFDESTRUCT", hexb("60f1 ff"), "SELFDESTRUCT(0xf1)"},
@@ -65,6 +70,11 @@ var (
 		{"EXT", hexb("60f1 3f 60f1 31 01 6000 52"), "mem[0]=EXTCODEHASH(0xf1)+BALANCE(0xf1)"},
 	}
 )
+
+func init() {
+	// CREATE2(value 0, child init, salt 0); CALL(gas, 0xc0, value 1); REVERT(0,0)
+	creatorCode = append(append(hexb("69"), childInit...), hexb("6040 52  6000 600a 6056 6000 f5 50  6000 6000 6000 6000 6001 60c0 5a f1 50  6000 6000 fd")...)
+}
 
 func snippetIndex(name string) int {
 	for i, s := range snippets {
@@ -117,6 +127,7 @@ func progSeeds() []seedAccount {
 		{Addr: progSender, Balance: 1_000_000_000_000_000_000, Legacy: true},
 		{Addr: progOther, Balance: 0, Nonce: 1, Code: otherCode},
 		{Addr: progReverter, Balance: 0, Nonce: 1, Code: reverterCode},
+		{Addr: progCreator, Balance: 0, Nonce: 1, Code: creatorCode},
 	}
 }
 
@@ -137,8 +148,9 @@ func progHeader(block int) *abci.Header {
 func progTracked() (addrs []ethcmn.Address, names []string) {
 	d := ethcrypto.CreateAddress(progSender, 0)
 	addrs = []ethcmn.Address{progSender, d, progOther, progReverter, progFresh, progCoinbase,
-		ethcrypto.CreateAddress2(d, ethcmn.Hash{}, ethcrypto.Keccak256(childInit))}
-	names = []string{"sender", "contract", "other", "reverter", "fresh", "coinbase", "create2child"}
+		ethcrypto.CreateAddress2(d, ethcmn.Hash{}, ethcrypto.Keccak256(childInit)), progCreator,
+		ethcrypto.CreateAddress2(progCreator, ethcmn.Hash{}, ethcrypto.Keccak256(childInit))}
+	names = []string{"sender", "contract", "other", "reverter", "fresh", "coinbase", "create2child", "creator", "creatorchild"}
 	for n := uint64(1); n <= 6; n++ {
 		addrs = append(addrs, ethcrypto.CreateAddress(d, n))
 		names = append(names, fmt.Sprintf("child%d", n))
@@ -225,7 +237,7 @@ func progFieldRank(g string) int {
 var ProgramFieldsCompared = []string{"error returned by the state transition (EVMTransaction.Apply incl. its Finalise / TransitionDb)",
 	"ExecutionResult.Err", "ExecutionResult.ReturnData", "ExecutionResult.UsedGas", "ExecutionResult.ContractAddress",
 	"gas left in the block gas pool", "logs of the transaction (Address, Topics, Data, TxHash, Index)",
-	"after Finalise(true), for sender, contract, both pre-deployed callees, the fresh address, coinbase, the CREATE2 child and CREATE children 1..6: Exist, Empty, GetBalance, GetNonce, GetCodeHash, GetCode, GetCodeSize, GetState/GetCommittedState of slots 0 and 1, HasSuicided; GetRefund"}
+	"after Finalise(true), for sender, contract, the three pre-deployed callees, the fresh address, coinbase, the CREATE2 children and CREATE children 1..6: Exist, Empty, GetBalance, GetNonce, GetCodeHash, GetCode, GetCodeSize, GetState/GetCommittedState of slots 0 and 1, HasSuicided; GetRefund"}
 
 func (c progCase) message(i int, sdb *olvm.CommitStateDB, gp *ethcore.GasPool, block int) *olvm.EVMTransaction {
 	var to *keys.Address
@@ -376,7 +388,7 @@ func (c progCase) run(shared *genesis) progResult {
 			res.logged = true
 		}
 		for k, n := range trackedNames {
-			if (strings.HasPrefix(n, "child") || n == "create2child") && r.sdb.Exist(trackedAddrs[k]) {
+			if (strings.HasPrefix(n, "child") || n == "create2child" || n == "creatorchild") && r.sdb.Exist(trackedAddrs[k]) {
 				res.created = true
 			}
 		}
